@@ -2,7 +2,8 @@
 """Generates MANIFEST.json from checks.json (+ not_applicable.json)."""
 import json, os
 V = os.path.dirname(os.path.abspath(__file__))
-checks = json.load(open(os.path.join(V, "checks.json")))
+import glob
+checks = {os.path.basename(p)[:-5]: json.load(open(p)) for p in sorted(glob.glob(os.path.join(V, "checks.d", "*.json")))}
 props = [json.loads(l) for l in open(os.path.join(V, "properties.jsonl"))]
 na_path = os.path.join(V, "not_applicable.json")
 na = json.load(open(na_path)) if os.path.exists(na_path) else {}
